@@ -1,4 +1,4 @@
-import SfntV.Proofs.GNames2
+import SfntV.Proofs.GNames3
 import SfntV.Generated.GNames
 
 /-!
@@ -154,6 +154,26 @@ theorem C20_sources {fromU : Nat → Name} {f : Font} {r : List Name}
         unfold St.n at this ⊢
         omega
       exact ornPass_prov _ i h2 hn
+
+/-- **Shape of GSUB-derived names.** A glyph that was still unnamed after the cmap pass and is
+named by the GSUB pass gets, as its final name, `base` or `base.N` (the first of `base`, `base.1`,
+`base.2`, … not yet in use), where `base` is the (final) name of a named glyph — single and
+alternate substitutions — or the (final) names of a named first glyph and named further
+components joined by `_` — ligature substitutions. -/
+theorem C20_gsub_shape {fromU : Nat → Name} {f : Font} {r : List Name}
+    (h : makeGlyphNames fromU f = some r) (i : Nat) (hi : i < r.length)
+    (h1 : (stage1 fromU f).nameAt i = []) (h2 : (stage2 fromU f).nameAt i ≠ []) :
+    r.getD i [] = (stage2 fromU f).nameAt i ∧
+    ∃ base t, r.getD i [] = variantName base t ∧
+      ((∃ o, (stage2 fromU f).nameAt o ≠ [] ∧ base = (stage2 fromU f).nameAt o) ∨
+       (∃ (o : Nat) (ins : List Nat), (stage2 fromU f).nameAt o ≠ [] ∧
+          (∀ g, g ∈ ins → (stage2 fromU f).nameAt g ≠ []) ∧
+          base = joinU ((stage2 fromU f).nameAt o :: ins.map (stage2 fromU f).nameAt))) := by
+  have e := (C20_sources h i hi).2.2.1 h2
+  refine ⟨e, ?_⟩
+  rcases gp_gsubPass f.gsub (stage1 fromU f) i h1 with h0 | ⟨base, t, hs, hn⟩
+  · exact absurd h0 h2
+  · exact ⟨base, t, by rw [e]; exact hn, hs⟩
 
 /-- **Stable (1): no dependence on map iteration order.** Two listings of the same GSUB
 subtables whose coverage maps are enumerated in different orders give the same answer. -/
@@ -322,6 +342,15 @@ example : makeGlyphNames (fun c => [Char.ofNat c]) ⟨.glyf 3 [], some ⟨65, 66
   decide +kernel
 
 /-! ## non-vacuity -/
+
+/-- a font where the GSUB pass names three glyphs: two variants (`A.1`, `A.2`: `A` is taken by
+the cmap pass) and a ligature (`A.2_B`) -/
+example : makeGlyphNames (fun c => [Char.ofNat c])
+    ⟨.glyf 6 [], some ⟨65, 66, fun c => if c = 65 then 1 else if c = 66 then 4 else 0⟩,
+      [.single1 [1] 1, .single2 [(1, 0)] [3], .lig [(3, 0)] [[([4], 5)]]]⟩ =
+    some [notdef, ['A'], ['A', '.', '1'], ['A', '.', '2'], ['B'], ['A', '.', '2', '_', 'B']] := by
+  decide +kernel
+
 
 /-- the hypotheses of `C20_stable_order` are met by a non-trivial pair -/
 example : SubsEquiv [.single2 [(1, 0), (2, 1)] [3, 4], .single1 [3, 1] 1]
